@@ -110,6 +110,10 @@ def gen_mutants(prop, base, limit, rng):
             if not st or st.startswith("//") or st.startswith("#[") or st.startswith("use "):
                 continue
             code = text.split("//")[0]
+            # statement deletion: a complete single-line expression statement (call / assignment)
+            if st.endswith(";") and not re.match(r"^(let |return\b|use |pub |const |static |break|continue|\}|assert|debug_assert)", st) \
+                    and st.count("(") == st.count(")") and st.count("{") == st.count("}") and "=>" not in st:
+                muts.append({"path": path, "line": ln, "op": -1, "old": text, "new": re.match(r"^\s*", text).group(0) + "// deleted: " + st})
             for k, (rx, rep) in enumerate(OPS):
                 for m in re.finditer(rx, code):
                     if rx in (r" < ", r" > ") and re.search(r"->|<[A-Z&']|::<", code):
@@ -200,6 +204,7 @@ def main():
     ap.add_argument("--max-per-prop", type=int, default=60)
     ap.add_argument("--suite", action="store_true")
     ap.add_argument("--seed", type=int, default=1)
+    ap.add_argument("--only-op", type=int, default=None, help="restrict to one operator index (-1 = statement deletion)")
     ap.add_argument("--out", default=os.path.join(VERIF, "notes", "mutation-run.json"))
     ap.add_argument("--suite-from", default="", help="run only the pinned suite on the survivors recorded in this file")
     a = ap.parse_args()
@@ -213,7 +218,10 @@ def main():
     for p in props:
         if want and p["id"] not in want:
             continue
-        for m in gen_mutants(p, base, a.max_per_prop, rng):
+        ms = gen_mutants(p, base, 10**6 if a.only_op is not None else a.max_per_prop, rng)
+        if a.only_op is not None:
+            ms = [m for m in ms if m["op"] == a.only_op][:a.max_per_prop]
+        for m in ms:
             jobs.append((p["id"], m))
     print(f"{len(jobs)} mutants, base {base[:8]}", flush=True)
     workers = [Worker(i) for i in range(a.workers)]
